@@ -20,6 +20,8 @@ func main() {
 		os.Exit(harness.CheckMain(os.Args[2:]))
 	case "one":
 		os.Exit(harness.OneMain(os.Args[2:]))
+	case "selftest":
+		os.Exit(harness.SelfTestMain())
 	case "replay":
 		os.Exit(harness.ReplayMain(os.Args[2:]))
 	default:
